@@ -290,9 +290,17 @@ def r8(cx):
             lv.append(c)
     cx.floor("level lookups in LevelManifestIterator::next", len(lv), 1)
     cut = set()
+    from ..core import option_edges
     for c in lv:
         cut |= set(_try_break_edges(b, c))
-    cx.check(bool(cut), "the level lookup ends the enumeration through `?`", "manifest-iter-no-level-exit", b.where())
+        # ... or through an explicit `match levels.get(i) { None => return None, .. }`
+        if len(c.dest) == 1 and c.target is not None:
+            e, sw = option_edges(b, c.dest[0], c.target)
+            if e:
+                for tgt, lab in e.items():
+                    if lab == frozenset({"0"}):
+                        cut.add((sw, tgt))
+    cx.check(bool(cut), "the level lookup ends the enumeration (`?` or an explicit None arm)", "manifest-iter-no-level-exit", b.where())
     nones = [x for x, k in exits(b) if k in ("none", "err")]
     r = reach_cut(b, [0], cut_edges=cut)
     bad = [x for x in nones if x in r]
